@@ -467,7 +467,7 @@ func (cr *caseRun) rawLaws(cmp comparer.Comparer, t []ent, verdict bool) {
 
 // padInsensitive is a valid but non-injective comparer: trailing 0x00 bytes are ignored, so a
 // shorter string can compare equal to a longer one; its Separator returns the stripped form of a
-// (a <= sep < b holds: sep equals a under the order).
+// (a <= sep < b holds: sep equals a under the order); its Successor likewise.
 type padInsensitive struct{}
 
 func trimPad(b []byte) []byte {
@@ -484,7 +484,15 @@ func (padInsensitive) Separator(dst, a, b []byte) []byte {
 	}
 	return nil
 }
-func (padInsensitive) Successor(dst, b []byte) []byte { return nil }
+// Successor returns the stripped form of b when that is shorter: legal (it compares equal to b, and the
+// contract only asks for >= b), and exactly the case in which the internal comparer must NOT accept the
+// shortened key (appending the maximal number to an *equal* user key gives a key that sorts before b).
+func (padInsensitive) Successor(dst, b []byte) []byte {
+	if t := trimPad(b); len(t) < len(b) {
+		return append(dst, t...)
+	}
+	return nil
+}
 
 func runCase(c *wk.Ctx, i int) {
 	r := c.Rand(i)
